@@ -76,6 +76,7 @@ type Sim struct {
 	SimTime    time.Duration
 	t0         time.Time
 	prev       *Sim
+	baseline   map[int64]bool // goroutines that existed before this run started
 }
 
 type task struct {
@@ -108,8 +109,39 @@ func New(plan, sched *Tape) *Sim {
 	s.sched = Goid()
 	s.prev = cur
 	cur = s
+	s.baseline = allGoids()
 	return s
 }
+
+// allGoids lists the ids of all goroutines of the process.
+func allGoids() map[int64]bool {
+	out := map[int64]bool{}
+	buf := make([]byte, 1<<20)
+	for {
+		n := runtime.Stack(buf, true)
+		if n < len(buf) {
+			buf = buf[:n]
+			break
+		}
+		buf = make([]byte, 2*len(buf))
+	}
+	for _, blk := range strings.Split(string(buf), "\n\n") {
+		if !strings.HasPrefix(blk, "goroutine ") {
+			continue
+		}
+		rest := blk[len("goroutine "):]
+		if sp := strings.IndexByte(rest, ' '); sp > 0 {
+			if id, err := strconv.ParseInt(rest[:sp], 10, 64); err == nil {
+				out[id] = true
+			}
+		}
+	}
+	return out
+}
+
+// Preexisting reports whether goroutine gid existed before this run started
+// (leftovers of earlier runs in the same worker process).
+func (s *Sim) Preexisting(gid int64) bool { return s.baseline[gid] }
 
 // Close ends the run: every parked goroutine is released and all later
 // scheduling points are pass-through, so leftovers finish on their own.
